@@ -539,7 +539,9 @@ func (bkt *Bucket) incr(ki *KeyInfo, value int) int {
 			}
 			if len(tofree.Body) > 22 {
 				logger.Warnf("incr with large value %s...", string(tofree.Body[:22]))
-				errFlag = true
+				cmem.DBRL.GetData.SubSizeAndCount(tofree.CArray.Cap)
+				tofree.CArray.Free()
+				cmem.DBRL.SetData.SubCount(1)
 				return 0
 			}
 			s := string(tofree.Body)
@@ -562,6 +564,10 @@ func (bkt *Bucket) incr(ki *KeyInfo, value int) int {
 		return 0
 	}
 
+	if tofree != nil {
+		cmem.DBRL.GetData.SubSizeAndCount(tofree.CArray.Cap)
+		tofree.CArray.Free()
+	}
 	payload := &Payload{}
 	payload.Flag = FLAG_INCR
 	payload.Ver = ver
